@@ -22,6 +22,7 @@ META = {
         "C13.P2 S2F15: every _set_ec_value is dominated by `eac == 0` evaluated after the complete validation loop; the validation loop writes nothing but EAC; both bounds are compared (strict) whenever they are declared, without further conditions; unknown id => EAC 1; the reply carries that EAC",
         "C13.P3 set_alarm/clear_alarm: S5F1 is sent iff the alarm is enabled at that moment, only on a change of the set state, with ALCD bit 7 set/cleared; S5F3 changes only known alarms; S5F7 lists exactly the enabled alarms",
         "C13.P4 values are read at request time (value_type(current value) or the user's callback)",
+        "C13.P5 no capability method keeps state between requests in a mutable default argument that it changes or hands out",
     ],
     "does_not_decide": ["reply values against a reference model over whole histories", "clock formats", "text/number id equality in Python dict lookups"],
     "assumptions": ["StreamsFunctions.decode returns the request's items in wire order (C03)"],
@@ -479,7 +480,29 @@ def check_current_values(ctx):
         ctx.ob("C13.P4", f.qualname, ok, "the value is the entry's current value (or the user's callback when configured)" if ok else "the reply value is not value_type(entry.value) / the use_callback hook", where=f.where)
 
 
+CAPABILITIES = ("StatusDataCollectionCapability", "EquipmentConstantsCapability", "AlarmCapability", "DataValueCapability", "ClockCapability")
+
+
+def check_no_state_between_requests(ctx):
+    """C13.P5: a request is answered from the tables and the request alone: no method of the capability classes keeps a
+    mutable default argument that it changes or hands out (one list shared by every call and every handler object - what a
+    rejected request collected is applied by the next accepted one)."""
+    repo = ctx.repo
+    n = 0
+    for cname in CAPABILITIES:
+        cls = repo.cls(cname)
+        bad = rules.shared_default_state(repo, cls)
+        n += len(cls.methods)
+        for f, pname, how in bad:
+            ctx.touch(f)
+            ctx.ob("C13.P5", f.qualname, False, f"the default of parameter `{pname}` is one mutable object for all calls and {how}: values collected for an earlier request are seen (and applied) by later ones",
+                   key="default " + pname, where=f.where)
+        ctx.ob("C13.P5", cname, not bad, f"{cname}: no method carries state in a mutable default argument" if not bad else f"{cname}: {len(bad)} method(s) carry state in a mutable default argument", key="no-shared-default", where=cls.where)
+    ctx.floor("capability methods inspected for shared defaults", n, 30)
+
+
 def run(ctx):
+    check_no_state_between_requests(ctx)
     check_list_handlers(ctx)
     check_s02f15(ctx)
     check_alarms(ctx)
